@@ -482,10 +482,13 @@ func cmdRun(args []string) int {
 		exit = 1
 	}
 
-	// ---- supplementary race-detector monitor (C13 thorough only; not deterministic, not the deciding step)
+	// ---- supplementary race-detector monitor (C13 only; not deterministic, not the deciding step)
 	var raceEv map[string]interface{}
 	if os.Getenv("SIMCHECK_RACEMON") != "" && p.ID() == "C13" {
-		spec := core.RaceSpec{Seed: *seed, Goroutines: 8, Rounds: 8, Per: 4}
+		spec := core.RaceSpec{Seed: *seed, Goroutines: 6, Rounds: 3, Per: 3}
+		if *tier == "thorough" {
+			spec = core.RaceSpec{Seed: *seed, Goroutines: 8, Rounds: 8, Per: 4}
+		}
 		t0 := time.Now()
 		sig, detail, err := runRaceMonitor(spec, *scratch)
 		raceEv = map[string]interface{}{"ran": err == nil, "goroutines": spec.Goroutines, "rounds": spec.Rounds, "instances": spec.Goroutines * spec.Rounds * spec.Per,
